@@ -1592,7 +1592,13 @@ impl PeerConnection {
         }
 
         for section in &desc.media_sections {
-            if self.config().transport_mode != TransportMode::WebRtc {
+            // The primary direct transport carries the first (accepted) media
+            // section; without BUNDLE later sections advertise ports of their own,
+            // which must not replace the primary remote address.
+            if self.config().transport_mode != TransportMode::WebRtc
+                && remote_addr.is_none()
+                && section.port != 0
+            {
                 let conn_opt = section
                     .connection
                     .as_ref()
